@@ -382,6 +382,11 @@ def _shapes_c03_6(tier):
             if tier == "quick" and suite == "chacha" and auth != "cert":
                 continue
             out.append(dict(auth=auth, suite=suite))
+    # HelloRetryRequest: the client's only share is for a group the server
+    # does not allow
+    for auth in ("psk_dhe", "cert", "cert+client"):
+        for suite in ("aes128", "aes256"):
+            out.append(dict(auth=auth, suite=suite, hrr=True))
     return out
 
 
@@ -405,7 +410,13 @@ def c03_6(I, shape):
     schedule evaluated over the transcript seen on the wire; every protected
     record is sealed under the key and sequence number of its epoch;
     exporters and application data agree"""
-    sc = P.Scenario13(I, PAIR_RND, shape["auth"], shape["suite"]).run()
+    sc = P.Scenario13(I, PAIR_RND, shape["auth"], shape["suite"])
+    if shape.get("hrr"):
+        sc.cset.keyShares = ["x25519"]
+        sc.cset.eccCurves = ["x25519", "secp256r1"]
+        sc.sset.keyShares = ["secp256r1"]
+        sc.sset.eccCurves = ["secp256r1"]
+    sc.run()
     auth, sname = sc.auth, sc.sname
     alg, n, klen, psk = sc.alg, sc.n, sc.klen, sc.psk
     cep, sep, wire, c, s = sc.cep, sc.sep, sc.wire, sc.c, sc.s
@@ -422,6 +433,12 @@ def c03_6(I, shape):
         I.check(len(P.ModelKEX.log) == 2, "one-dh-computation-per-side")
         shared = P.ModelKEX.log[0][3]
     ref = P.Schedule13(alg, psk, shared, view)
+    I.check(bool(view.hrr) == bool(shape.get("hrr")),
+            "hello-retry-request-exactly-when-no-usable-share")
+    if shape.get("hrr"):
+        I.check(P.ModelKEX.log[0][0] == GroupName.secp256r1 and
+                c.ecdhCurve == s.ecdhCurve == GroupName.secp256r1,
+                "group-after-retry-is-the-server-s")
     cs, ss = c.session, s.session
     I.check(c.version == (3, 4) and s.version == (3, 4), "version-agreed")
     I.check(cs.cipherSuite == ss.cipherSuite == SUITES13[sname],
